@@ -1,7 +1,179 @@
-(* Props/C11.v — property theorems only; proofs live in Proofs/. *)
-From Coq Require Import List NArith ZArith.
-From Cedar Require Import Lib.Bytes Lib.SymC11.
+(* Props/C11.v — property theorems only; proofs live in Proofs/C11.v, the
+   predicates (token_valid, client_proof, server_proof, times_valid,
+   id_token_valid, mk_vstate) in Proofs/C11Spec.v, the model in Model/Token.v.
+
+   Every theorem quantifies over ALL peer scripts (any list of frames), all
+   crypto functions, all JSON decoders, all key stores, all clocks and nonces. *)
+From Coq Require Import List NArith ZArith Bool.
+From Cedar Require Import Lib.Bytes Lib.SymC11 gen.Consts gen.FactsC11 Model.Msg Model.Token
+     Proofs.C11Spec Proofs.C11.
+Import ListNotations.
+Local Open Scope Z_scope.
+
+(* Server success, exactly: message 1 parsed completely with status OK; the token is
+   valid at [now] under a signing key the server holds ([token_valid]: kid -> key,
+   exp > now, now - iat <= max age, subject a non-empty string); message 3 is
+   complete, has status OK, echoes the server's own nonce [rb] and carries the MAC,
+   under K = kdf(sign(key, token), token) — the signature the SERVER recomputed —
+   of (subject, 0, rb); the recorded user is derived from the token's subject. *)
+Theorem C11_server_accepts :
+  forall (e : env) (now : Z) (rb : bytes) (frames : list mframe) (user sk : bytes) (sent : option (list mframe)),
+    server_run e now rb frames = {| s_out := Accept user sk; s_sent := sent |} <->
+    exists claimed tok ra r1 key sub,
+      srv_step1 (reader_of frames) = S1Ok claimed tok ra r1 /\
+      token_valid e now tok key sub /\
+      client_proof (e_cr e) (c_kdf (e_cr e) (c_sign (e_cr e) key tok) tok) sub rb (reader_of (r_in r1)) /\
+      user = user_of sub /\
+      sk = c_skey (e_cr e) rb /\
+      sent = Some (srv_msg2_ok (e_cr e) (mk_vstate e tok key sub) ra rb).
+Proof. exact server_accepts_iff. Qed.
+Print Assumptions C11_server_accepts.
+
+(* The identity the server derives never depends on the id the client claims. *)
+Theorem C11_server_identity_ignores_claim :
+  forall (e : env) (now : Z) (claimed1 claimed2 tok : bytes),
+    validate_token e now claimed1 tok = validate_token e now claimed2 tok.
+Proof. exact validate_token_ignores_claim. Qed.
+Print Assumptions C11_server_identity_ignores_claim.
+
+(* validateTokenAndDeriveKeys succeeds exactly on valid tokens and yields the
+   subject, the recomputed signature and the key derived from it. *)
+Theorem C11_validate_exact :
+  forall (e : env) (now : Z) (claimed tok : bytes) (v : vstate),
+    validate_token e now claimed tok = Some v <->
+    exists key sub, token_valid e now tok key sub /\ v = mk_vstate e tok key sub.
+Proof. exact validate_token_spec. Qed.
+Print Assumptions C11_validate_exact.
+
+(* A token failure found after message 1 is deferred: the error form of message 2
+   is still sent and the exchange is reported as failed. *)
+Theorem C11_server_failure_is_deferred :
+  forall (e : env) (now : Z) (rb : bytes) (frames : list mframe) claimed tok ra r1,
+    srv_step1 (reader_of frames) = S1Ok claimed tok ra r1 ->
+    validate_token e now claimed tok = None ->
+    server_run e now rb frames = {| s_out := Fail; s_sent := Some srv_msg2_err |}.
+Proof. exact server_deferred_failure. Qed.
+Print Assumptions C11_server_failure_is_deferred.
+
+(* Client success, exactly: a token was loaded; message 2 has status OK, echoes the
+   client's id and its nonce [ra], and carries the MAC under
+   K = kdf(client's token signature, token) of (id ' ' server-id 0 ra rb). *)
+Theorem C11_client_accepts :
+  forall (cr : crypto) (ld : loaded) (ra : bytes) (frames : list mframe) (sk : bytes) (sent : list (list mframe)),
+    client_run cr ld ra frames = {| c_out := CAccept sk; c_sent := sent |} <->
+    exists cid tok sig sid rb,
+      ld = Some (cid, tok, sig) /\
+      server_proof cr (c_kdf cr sig tok) cid ra sid rb (reader_of frames) /\
+      sk = c_skey cr rb /\
+      sent = [cli_msg1_ok cid tok ra; cli_msg3_ok cr (c_kdf cr sig tok) cid rb].
+Proof. exact client_accepts_iff. Qed.
+Print Assumptions C11_client_accepts.
+
+Theorem C11_client_without_token_fails :
+  forall (cr : crypto) (ra : bytes) (frames : list mframe),
+    c_out (client_run cr None ra frames) = CFail.
+Proof. exact client_without_token_fails. Qed.
+Print Assumptions C11_client_without_token_fails.
+
+(* Standalone verification accepts exactly: three parts, signature part =
+   sign(key(kid), header.payload), time claims valid, subject non-empty. *)
+Theorem C11_verify_exact :
+  forall (e : env) (now : Z) (t : bytes) (out : id_claims),
+    verify_id_token e now t = Some out <-> id_token_valid e now t out.
+Proof. exact verify_id_token_iff. Qed.
+Print Assumptions C11_verify_exact.
+
+(* validateTokenTiming, exactly *)
+Theorem C11_times_valid_exact :
+  forall (now cfg : Z) (c : claims), timing_ok now cfg c = true <-> times_valid now cfg c.
+Proof. exact timing_ok_spec. Qed.
+Print Assumptions C11_times_valid_exact.
+
+(* Under the ideal (free-term) instance the accepted MAC determines the signing key
+   and the token: the peer's proof could only be built from that very signature. *)
+Theorem C11_ideal_possession :
+  forall (e : env) (now : Z) (rb : bytes) (frames : list mframe) user sk sent,
+    e_cr e = ideal ->
+    server_run e now rb frames = {| s_out := Accept user sk; s_sent := sent |} ->
+    exists claimed tok ra r1 key sub mac,
+      srv_step1 (reader_of frames) = S1Ok claimed tok ra r1 /\
+      token_valid e now tok key sub /\
+      client_proof ideal (i_kdf (i_sign key tok) tok) sub rb (reader_of (r_in r1)) /\
+      mac = i_mac (i_kdf (i_sign key tok) tok) (mac_C sub rb) /\
+      forall key' tok' m', mac = i_mac (i_kdf (i_sign key' tok') tok') m' ->
+                           key' = key /\ tok' = tok /\ m' = mac_C sub rb.
+Proof. exact ideal_server_possession. Qed.
+Print Assumptions C11_ideal_possession.
+
 Theorem C11_ideal_mac_fixes_signature : forall sig tok m sig' tok' m',
   i_mac (i_kdf sig tok) m = i_mac (i_kdf sig' tok') m' -> sig = sig' /\ tok = tok' /\ m = m'.
 Proof. exact ideal_mac_fixes_signature. Qed.
 Print Assumptions C11_ideal_mac_fixes_signature.
+
+(* ---------- non-vacuity: a concrete world in which both roles succeed ---------- *)
+Module Ex.
+  (* header segment "aGRy" (decodes to "hdr"), payload segment "cGF5" ("pay") *)
+  Definition p0 : bytes := [x61; x47; x52; x79].
+  Definition p1 : bytes := [x63; x47; x46; x35].
+  Definition tok : bytes := p0 ++ dot :: p1.
+  Definition sub : bytes := [x61; x6c; x40; x70].                 (* "al@p" *)
+  Definition kid : bytes := [x6b; x31].                           (* "k1" *)
+  Definition keyfile : bytes := [xde; xad; xbe; xef; x01; x02].   (* scrambled key file *)
+  Definition none6 kid' exp iat sub' := {| j_kid := kid'; j_exp := exp; j_iat := iat; j_sub := sub'; j_iss := JAbsent; j_scope := JAbsent |}.
+  Definition json (b : bytes) : option claims :=
+    if bytes_eqb b [x68; x64; x72] then Some (none6 (JStr kid) JAbsent JAbsent JAbsent)
+    else if bytes_eqb b [x70; x61; x79] then Some (none6 JAbsent (JNum 2000) (JNum 900) (JStr sub))
+    else None.
+  Definition e : env :=
+    {| e_cr := ideal; e_json := json; e_pool := None;
+       e_named := fun k => if bytes_eqb k kid then Some keyfile else None;
+       e_max_age := 0; e_trust := [] |}.
+  Definition key : bytes := simple_scramble keyfile.
+  Definition sig : bytes := i_sign key tok.
+  Definition K : bytes := i_kdf sig tok.
+  Definition ra : bytes := [x11; x12; x13].
+  Definition rb : bytes := [x21; x22; x23; x24].
+  Definition now : Z := 1000.
+  Definition claimed : bytes := [x72; x6f; x6f; x74].             (* "root": a lie *)
+  Definition m1 := cli_msg1_ok claimed tok ra.
+  Definition m3 := cli_msg3_ok ideal K sub rb.
+  Definition m2 := srv_msg2_ok ideal (mk_vstate e tok key sub) ra rb.
+  Definition full_token : bytes := tok ++ dot :: b64url_encode sig.
+End Ex.
+
+(* the server accepts the honest exchange and records "al" although "root" was claimed *)
+Example C11_ex_server_accepts :
+  server_run Ex.e Ex.now Ex.rb (Ex.m1 ++ Ex.m3)
+  = {| s_out := Accept [x61; x6c] (i_skey Ex.rb); s_sent := Some Ex.m2 |}.
+Proof. vm_compute. reflexivity. Qed.
+Example C11_ex_token_valid : token_valid Ex.e Ex.now Ex.tok Ex.key Ex.sub.
+Proof.
+  assert (V : validate_token Ex.e Ex.now [] Ex.tok = Some (mk_vstate Ex.e Ex.tok Ex.key Ex.sub))
+    by (vm_compute; reflexivity).
+  apply C11_validate_exact in V as (k & s & H & E).
+  inversion E; subst. exact H.
+Qed.
+(* ... and the client accepts the message 2 that server produced *)
+Example C11_ex_client_accepts :
+  client_run ideal (Some (Ex.sub, Ex.tok, Ex.sig)) Ex.ra Ex.m2
+  = {| c_out := CAccept (i_skey Ex.rb); c_sent := [cli_msg1_ok Ex.sub Ex.tok Ex.ra; Ex.m3] |}.
+Proof. vm_compute. reflexivity. Qed.
+(* one second after exp, one wrong MAC byte, a trailing byte, a non-OK status: rejected *)
+Example C11_ex_server_rejects_expired :
+  s_out (server_run Ex.e 2000 Ex.rb (Ex.m1 ++ Ex.m3)) = Fail.
+Proof. vm_compute. reflexivity. Qed.
+Example C11_ex_server_rejects_wrong_mac :
+  s_out (server_run Ex.e Ex.now Ex.rb (Ex.m1 ++ cli_msg3_ok ideal (i_kdf (i_sign [x00] Ex.tok) Ex.tok) Ex.sub Ex.rb)) = Fail.
+Proof. vm_compute. reflexivity. Qed.
+Example C11_ex_server_rejects_stale_nonce :
+  s_out (server_run Ex.e Ex.now [x99] (Ex.m1 ++ Ex.m3)) = Fail.
+Proof. vm_compute. reflexivity. Qed.
+Example C11_ex_client_rejects_other_key :
+  c_out (client_run ideal (Some (Ex.sub, Ex.tok, i_sign [x00] Ex.tok)) Ex.ra Ex.m2) = CFail.
+Proof. vm_compute. reflexivity. Qed.
+Example C11_ex_verify_accepts :
+  verify_id_token Ex.e Ex.now ([x20] ++ Ex.full_token ++ [x0a])
+  = Some {| ic_sub := Ex.sub; ic_iss := []; ic_scope := []; ic_exp := 2000; ic_iat := 900 |}.
+Proof. vm_compute. reflexivity. Qed.
+Example C11_ex_verify_rejects_at_exp : verify_id_token Ex.e 2000 Ex.full_token = None.
+Proof. vm_compute. reflexivity. Qed.
